@@ -220,3 +220,74 @@ __CPROVER_ensures(g_exits == 1 && g_stop_seen) /*@ C07 "the worker leaves its lo
     harness='  BW* s; BW_thread_main(s);',
     dropped=['the options copy captured by the lambda (passed to _init)', 'text of the error messages'], trusted=['_poll and _exit by their own units; stop() on another thread may clear the running flag at any time (rely step in the load stub)', 'termination of the loop (liveness) is not claimed'], min_obligations=20)
 UNITS.append(main_loop)
+
+# ------------------------------------------------------------------------------------------ BackendWorker::_poll: one pass of the backend
+PO_PRELUDE = r'''
+typedef struct Options { size_t transit_events_soft_limit; int64_t sleep_duration; bool enable_yield_when_idle; int64_t sink_min_flush_interval; } Options;
+typedef struct BW { Options _options; bool _wake_up_flag; } BW;
+size_t g_clock, g_t_update, g_t_populate, g_t_first_process, g_t_empty_check, g_t_sleep, g_t_cleanup_tc, g_t_cleanup_lg;
+size_t g_updates, g_populates, g_processes, g_pending_checks, g_flushes, g_failure_checks, g_empty_checks, g_cleanups_tc, g_cleanups_lg, g_shrinks, g_sleeps, g_yields, g_resyncs;
+size_t g_cached; bool g_last_pending, g_last_pending_valid, g_all_empty;
+#define TICK (g_clock == OLD(g_clock) + 1)
+void BW__update_active_thread_contexts_cache(BW* self) __CPROVER_assigns(g_clock, g_t_update, g_updates) __CPROVER_ensures(TICK && g_t_update == g_clock && g_updates == OLD(g_updates) + 1);
+size_t BW__populate_transit_events_from_frontend_queues(BW* self)
+__CPROVER_requires(g_updates == 1) /*@ C03 "the queues are read after the set of threads was refreshed" */
+__CPROVER_assigns(g_clock, g_t_populate, g_populates, g_cached) __CPROVER_ensures(TICK && g_t_populate == g_clock && g_populates == OLD(g_populates) + 1 && RET == g_cached);
+bool BW_has_pending(BW* self) __CPROVER_assigns(g_clock, g_pending_checks, g_last_pending, g_last_pending_valid) __CPROVER_ensures(TICK && g_pending_checks == OLD(g_pending_checks) + 1 && g_last_pending == RET && g_last_pending_valid);
+bool BW__process_lowest_timestamp_transit_event(BW* self)
+__CPROVER_requires(g_populates == 1 && g_cached != 0) /*@ C05 "an event is written only after the queues were read in this pass and something is buffered" */
+__CPROVER_requires(g_cached < self->_options.transit_events_soft_limit ? g_processes == 0 : (g_last_pending_valid && !g_last_pending)) /*@ C05 "below the soft limit a single event is written per pass; in a batch every event is written right after a negative pending check" */
+__CPROVER_assigns(g_clock, g_processes, g_t_first_process, g_last_pending_valid) __CPROVER_ensures(TICK && g_processes == OLD(g_processes) + 1 && !g_last_pending_valid && (OLD(g_processes) == 0 ? g_t_first_process == g_clock : g_t_first_process == OLD(g_t_first_process)));
+void BW_flush_sinks(BW* self, bool periodic, int64_t interval)
+__CPROVER_requires(periodic && interval == self->_options.sink_min_flush_interval) /*@ C06 "the idle flush honours the configured minimum flush interval and runs the sinks' periodic tasks" */
+__CPROVER_assigns(g_clock, g_flushes) __CPROVER_ensures(TICK && g_flushes == OLD(g_flushes) + 1);
+void BW__check_failure_counter(BW* self) __CPROVER_assigns(g_clock, g_failure_checks) __CPROVER_ensures(TICK && g_failure_checks == OLD(g_failure_checks) + 1);
+void BW__resync_rdtsc_clock(BW* self) __CPROVER_assigns(g_resyncs) __CPROVER_ensures(g_resyncs == OLD(g_resyncs) + 1);
+bool BW__check_frontend_queues_and_cached_transit_events_empty(BW* self) __CPROVER_assigns(g_clock, g_t_empty_check, g_empty_checks, g_all_empty) __CPROVER_ensures(TICK && g_t_empty_check == g_clock && g_empty_checks == OLD(g_empty_checks) + 1 && g_all_empty == RET);
+void BW__cleanup_invalidated_thread_contexts(BW* self)
+__CPROVER_requires(g_empty_checks == 1 && g_all_empty && g_processes == 0) /*@ C20 "in a pass, thread contexts are reclaimed only after every queue and buffer was found empty" */
+__CPROVER_assigns(g_clock, g_t_cleanup_tc, g_cleanups_tc) __CPROVER_ensures(TICK && g_t_cleanup_tc == g_clock && g_cleanups_tc == OLD(g_cleanups_tc) + 1);
+void BW__cleanup_invalidated_loggers(BW* self)
+__CPROVER_requires(g_empty_checks == 1 && g_all_empty && g_processes == 0) /*@ C17 "in a pass, removed loggers are destroyed only after every queue and buffer was found empty" */
+__CPROVER_assigns(g_clock, g_t_cleanup_lg, g_cleanups_lg) __CPROVER_ensures(TICK && g_t_cleanup_lg == g_clock && g_cleanups_lg == OLD(g_cleanups_lg) + 1);
+void BW__try_shrink_empty_transit_event_buffers(BW* self) __CPROVER_requires(g_all_empty) __CPROVER_assigns(g_shrinks) __CPROVER_ensures(g_shrinks == OLD(g_shrinks) + 1);
+void CV_WAIT_FOR(BW* self)
+__CPROVER_requires(g_empty_checks == 1 && g_all_empty && g_cached == 0) /*@ C09 "the backend goes to sleep only in a pass that read nothing and found every queue and buffer empty: it never sleeps on a queue that holds statements or on a producer waiting for room" */
+__CPROVER_assigns(g_clock, g_t_sleep, g_sleeps, self->_wake_up_flag) __CPROVER_ensures(TICK && g_t_sleep == g_clock && g_sleeps == OLD(g_sleeps) + 1);
+void THREAD_YIELD(void) __CPROVER_assigns(g_yields) __CPROVER_ensures(g_yields == OLD(g_yields) + 1);
+#define BW__flush_and_run_active_sinks(self, a, b) BW_flush_sinks(self, a, b)
+#define BW_has_pending_events_for_caching_when_transit_event_buffer_empty(self) BW_has_pending(self)
+'''
+bw_poll = dict(
+    name='BW.poll', primary='C05', props={'C05', 'C03', 'C06', 'C09', 'C17', 'C20'}, kind='S',
+    desc='BackendWorker::_poll, one pass: refresh the threads, read the queues, then either write (one event below the soft limit, a checked batch above it) or - only when nothing was read - flush, report drops, and reclaim / sleep only if everything was found empty',
+    structs=[], prelude=PO_PRELUDE, enforce='BW__poll',
+    replace=['BW__update_active_thread_contexts_cache', 'BW__populate_transit_events_from_frontend_queues', 'BW_has_pending', 'BW__process_lowest_timestamp_transit_event', 'BW_flush_sinks', 'BW__check_failure_counter',
+             'BW__resync_rdtsc_clock', 'BW__check_frontend_queues_and_cached_transit_events_empty', 'BW__cleanup_invalidated_thread_contexts', 'BW__cleanup_invalidated_loggers', 'BW__try_shrink_empty_transit_event_buffers',
+             'CV_WAIT_FOR', 'THREAD_YIELD'], loopcontracts=True,
+    funcs=[dict(src=dict(header=BH, cls='BackendWorker', name='_poll'), src_params=[], cfun='BW__poll', sig='void BW__poll(BW* self)', cls_c='BW', member_fields=['_options', '_wake_up_flag'],
+                siblings=['_update_active_thread_contexts_cache', '_populate_transit_events_from_frontend_queues', 'has_pending_events_for_caching_when_transit_event_buffer_empty', '_process_lowest_timestamp_transit_event',
+                          '_flush_and_run_active_sinks', '_check_failure_counter', '_resync_rdtsc_clock', '_check_frontend_queues_and_cached_transit_events_empty', '_cleanup_invalidated_thread_contexts',
+                          '_cleanup_invalidated_loggers', '_try_shrink_empty_transit_event_buffers'],
+                pre_rules=[(r'_check_failure_counter\(_options\.error_notifier\)', '_check_failure_counter()'), (r'_options\.sleep_duration\.count\(\)', '_options.sleep_duration'),
+                           (r'std::unique_lock<std::mutex>\s+lock\{_wake_up_mutex\}\s*;', ''), (r'_wake_up_cv\.wait_for\(lock,\s*_options\.sleep_duration,\s*\[this\]\s*\{\s*return _wake_up_flag;\s*\}\)\s*;', 'CV_WAIT_FOR(self);'),
+                           (r'std::this_thread::yield\(\)\s*;', 'THREAD_YIELD();')],
+                loops={r'while\s*\(\s*\(?\s*!\s*BW_has_pending': r'''
+__CPROVER_assigns(g_clock, g_pending_checks, g_last_pending, g_last_pending_valid, g_processes, g_t_first_process)
+__CPROVER_loop_invariant(g_populates == 1 && g_cached != 0 && g_cached >= self->_options.transit_events_soft_limit)
+'''},
+                contract=r'''
+__CPROVER_requires(__CPROVER_is_fresh(self, sizeof(*self)) && g_clock == 0 && g_updates == 0 && g_populates == 0 && g_processes == 0 && g_pending_checks == 0 && g_flushes == 0 && g_failure_checks == 0 && g_empty_checks == 0 && g_cleanups_tc == 0 && g_cleanups_lg == 0 && g_sleeps == 0 && g_yields == 0 && !g_last_pending_valid && g_t_first_process == 0)
+__CPROVER_assigns(g_clock, g_t_update, g_t_populate, g_t_first_process, g_t_empty_check, g_t_sleep, g_t_cleanup_tc, g_t_cleanup_lg, g_updates, g_populates, g_processes, g_pending_checks, g_flushes, g_failure_checks, g_empty_checks, g_cleanups_tc, g_cleanups_lg, g_shrinks, g_sleeps, g_yields, g_resyncs, g_cached, g_last_pending, g_last_pending_valid, g_all_empty, self->_wake_up_flag)
+__CPROVER_ensures(g_updates == 1 && g_populates == 1 && g_t_update < g_t_populate) /*@ C03 "every pass refreshes the set of threads and then reads every queue once" */
+__CPROVER_ensures(g_processes > 0 ==> (g_cached != 0 && g_flushes == 0 && g_sleeps == 0 && g_cleanups_tc == 0 && g_cleanups_lg == 0)) /*@ C05 "events are written only when this pass buffered something (and, by the precondition of the processing step, after it read the queues); a pass that writes neither sleeps nor reclaims" */
+__CPROVER_ensures((g_cached != 0 && g_cached < self->_options.transit_events_soft_limit) ==> g_processes == 1) /*@ C05 "below the soft limit exactly one event is written, then the queues get priority again" */
+__CPROVER_ensures(g_cached == 0 ==> (g_processes == 0 && g_flushes == 1 && g_failure_checks == 1 && g_empty_checks == 1)) /*@ C06,C08 "a pass that read nothing flushes the sinks, reports dropped statements and checks whether everything is empty" */
+__CPROVER_ensures((g_cleanups_tc + g_cleanups_lg + g_sleeps + g_yields > 0) ==> (g_cached == 0 && g_all_empty)) /*@ C20,C17,C09 "reclaiming, sleeping and yielding happen only when every queue and buffer was found empty" */
+__CPROVER_ensures((g_cached == 0 && g_all_empty) ==> (g_cleanups_tc == 1 && g_cleanups_lg == 1 && g_sleeps == (self->_options.sleep_duration != 0 ? 1 : 0))) /*@ C20 "whenever everything is empty, exited threads and removed loggers are reclaimed in that very pass" */
+__CPROVER_ensures(g_sleeps == 1 ==> (!self->_wake_up_flag && g_t_cleanup_tc < g_t_sleep && g_t_cleanup_lg < g_t_sleep)) /*@ C07 "the wake-up flag is consumed by the sleep it ended" */
+''')],
+    harness='  BW* s; BW__poll(s);',
+    dropped=['std::unique_lock / condition_variable::wait_for as one stub (spurious wake-ups and time-outs are the same event to the caller)', 'the error notifier argument of _check_failure_counter', 'std::chrono durations as integers'],
+    trusted=['the called functions by their own units (BW.update_cache*, BW.populate_all, BW.has_pending, BW.process_lowest, BW.flush_sinks, BW.failure_counter, BW.queues_empty, BW.cleanup_pred, BW.cleanup_loggers)'], min_obligations=30)
+UNITS.append(bw_poll)
